@@ -63,7 +63,7 @@ pub fn cfg_fine(prop: &str, thorough: bool) -> Cfg {
         moves: FINE.to_vec(),
         deviations: vec![],
         max_dev: 0,
-        max_total: if thorough { 9 * 1024 } else { 5 * 1024 },
+        max_total: if thorough { 20 * 1024 } else { 8 * 1024 },
         with_reset: false,
         offsets: vec![],
         traits_lane: false,
@@ -410,7 +410,7 @@ pub fn explore(cfg: &Cfg, mode: &ModeSpec, lname: &str, level: P, stream: &str, 
             };
             // Clone independence, both directions (second direction for the first op of every
             // state; all ops in the thorough tier): operate on the original, keep the clone.
-            if first || cfg.max_total > 5 * 1024 {
+            if first || cfg.max_total > 8 * 1024 {
                 first = false;
                 let keep = st.h.clone();
                 let mut orig = st.h.clone();
